@@ -143,6 +143,7 @@ fn selfdiff(w: &mut World, n: usize, v2: bool) -> VResult {
         let t = doc.transact();
         (crate::dump::dump_doc(&t), sv_vec(&t.state_vector()), t.snapshot())
     };
+    let stash_before = has_missing(&doc);
     let payload = {
         let t = doc.transact();
         let sv = t.state_vector();
@@ -164,8 +165,12 @@ fn selfdiff(w: &mut World, n: usize, v2: bool) -> VResult {
     let sv1 = sv_vec(&t.state_vector());
     let snap1 = t.snapshot();
     if dump0 != dump1 || sv0 != sv1 || snap0 != snap1 {
+        // known finding F19 (stash family) is identified by the replica holding a stash before the
+        // exchange and less or none afterwards: the diff itself added nothing, applying it gave
+        // the stash the retry it should have had when its dependencies arrived
+        let from_stash = stash_before && sv_ge(&sv1, &sv0);
         return Err(viol(
-            "svsync.selfdiff",
+            if from_stash { "svsync.selfdiff-stashed" } else { "svsync.selfdiff" },
             format!(
                 "node {}: applying encode_diff(own state vector) to itself changed it\n  before: {} {:?}\n  after : {} {:?}\n  snapshot equal: {}",
                 n,
@@ -565,6 +570,31 @@ fn complete(w: &World, doc: &yrs::Doc) {
 
 fn compare_twins(w: &World, what: &str, t1: &yrs::Doc, t2: &yrs::Doc, desc: &str) -> VResult {
     let (m1, m2) = (has_missing(t1), has_missing(t2));
+    // A payload that carries a block as a collected range says less than one that carries it with
+    // its content: it presupposes that the block's parent is deleted, which the twins may not have
+    // been told yet (a block inserted next to it is collected on sight of the range and integrated
+    // on sight of the item). Where the multiset holds both versions of a block, the two ways of
+    // applying it are compared once both twins have been completed with every payload of the run.
+    let lossy = what.ends_with("-tombstone-dup");
+    if lossy {
+        complete(w, t1);
+        complete(w, t2);
+        if !has_missing(t1) && !has_missing(t2) {
+            let (d1, d2) = (doc_dump(t1), doc_dump(t2));
+            if d1 != d2 {
+                return Err(viol(
+                    what,
+                    format!("{}: content differs after both twins were completed with every payload of the run\n  algebra : {}\n  sequence: {}", desc, d1, d2),
+                ));
+            }
+        }
+        return Ok(());
+    }
+    // A stash can hold a block that has meanwhile become known by another route (here: as a
+    // collected range); it is only dropped when the stash is next retried, and what triggers a
+    // retry depends on batching. Such a stash does not count as "missing updates".
+    let obsolete = |d: &yrs::Doc| yrs::verif::stash_is_obsolete(d.transact().store());
+    let (m1, m2) = (m1 && !obsolete(t1), m2 && !obsolete(t2));
     if m1 != m2 {
         return Err(viol(
             what,
